@@ -241,6 +241,18 @@ pub fn gen_c23(r: &mut Rng, kind_hint: usize) -> (SemCase, String) {
     }
     let mut prog = b.prog();
     shuffle_order(r, &mut prog);
+    if kind.ends_with("#ref") && r.chance(1, 2) {
+        // declare the reference holder (and everything downstream of the last source) before the
+        // referenced value's producers: the front end has to order them by the reference alone
+        let first_reader = prog
+            .nodes
+            .iter()
+            .rposition(|n| matches!(n.op, Op::SrcStream { .. }))
+            .unwrap_or(0);
+        let mut o: Vec<usize> = (first_reader..prog.nodes.len()).collect();
+        o.extend(0..first_reader);
+        prog.stmt_order = Some(o);
+    }
     // scripts: small key domain so that the blocking side really decides the output
     let nscripts = 6;
     let mut scripts = vec![];
